@@ -20,7 +20,8 @@ pub struct Crash {
 const FLAG_MENU: [&str; 12] = ["", "i", "m", "s", "x", "q", "ims", "imsx", "qi", "xq", "sm;g", "z"];
 const FLAG_MENU_AST: [&str; 6] = ["", "i", "m", "s", "ims", "x"];
 const REPLS: [&str; 13] = ["", "x", "$0", "$1", "$12", "\\$", "$", "\\", "$a", "$\u{663}", "$\u{b2}", "$1\u{663}", "\\\u{663}"];
-const FLAG_LETTERS: [&str; 11] = ["s", "m", "i", "x", "q", ";", "g", "k", "K", "z", " "];
+// (the non-ASCII letters share their low byte with i, m, s, x, q and ';')
+const FLAG_LETTERS: [&str; 18] = ["s", "m", "i", "x", "q", ";", "g", "k", "K", "z", " ", "\u{169}", "\u{16d}", "\u{173}", "\u{178}", "\u{171}", "\u{13b}", "\u{e9}"];
 
 fn space_for(tier: Tier) -> Space {
     let mut s = Space::new();
@@ -30,8 +31,8 @@ fn space_for(tier: Tier) -> Space {
             // one more kernel level, lighter: flags "" and "m", inputs of length <= 2
             s.ast_range("K", 5, 5, 256, 2);
             s.tok("T", &gen::T_FULL, 3, 64).tok("T0", &gen::T_CORE, 3, 64).tok("TU", &gen::T_UNI, 3, 64).tok("TQ", &gen::T_QUANT, 4, 64).tok("TG", &gen::T_GROUP, 5, 64).tok("TC", &gen::T_CLS, 4, 64).tok("TX", &gen::T_XCLS, 4, 64);
-            s.ast("Z", 5, 64).ast("NESTN", 4, 64);
-            s.list("flagstrings", 1 + 11 + 121 + 1331, 128);
+            s.ast("Z", 5, 64).ast("NESTN", 4, 64).ast("OPTG", 5, 64).ast("CAPR", 4, 64);
+            s.list("flagstrings", 1 + 18 + 324 + 5832, 128);
             s.list("triggers", crate::checks::c08::triggers().len() as u64, 16);
             s.list("whitespace under x", xws_crash_cases().len() as u64, 16);
             s.list("extreme counts", extreme_count_cases().len() as u64, 16);
@@ -41,8 +42,8 @@ fn space_for(tier: Tier) -> Space {
         Tier::Thorough => {
             s.ast("K", 5, 64).ast("Q", 3, 64).ast("CL", 3, 64).ast("G", 6, 64).ast("AN", 4, 64).ast("U", 4, 64).ast("CI", 3, 64).ast("ALT", 4, 64).ast("NEST", 6, 64).ast("GCM", 4, 64).ast("CAPQ", 6, 64).ast("BR", 5, 64);
             s.tok("T", &gen::T_FULL, 3, 64).tok("T0", &gen::T_CORE, 5, 64).tok("TU", &gen::T_UNI, 4, 64).tok("TQ", &gen::T_QUANT, 5, 64).tok("TG", &gen::T_GROUP, 6, 64).tok("TC", &gen::T_CLS, 5, 64).tok("TX", &gen::T_XCLS, 5, 64);
-            s.ast("Z", 6, 64).ast("NESTN", 5, 64);
-            s.list("flagstrings", 1 + 11 + 121 + 1331, 128);
+            s.ast("Z", 6, 64).ast("NESTN", 5, 64).ast("OPTG", 5, 64).ast("CAPR", 4, 64);
+            s.list("flagstrings", 1 + 18 + 324 + 5832, 128);
             s.list("triggers", crate::checks::c08::triggers().len() as u64, 16);
             s.list("whitespace under x", xws_crash_cases().len() as u64, 16);
             s.list("extreme counts", extreme_count_cases().len() as u64, 16);
